@@ -372,7 +372,7 @@ macro_rules! c03_total {
 //@ assumes=option map is the fixed-capacity array model (capacity = max distinct numbers an 8-byte datagram can hold)
 c03_total!(c03_total_8, 8, 7, false);
 
-//@ props=C03 tier=quick timeout=850 mem=16 cap=3 ilist=1 witness=c03_total_6 name=c03_total_7
+//@ props=C03 tier=thorough timeout=1800 mem=18 cap=3 ilist=1 witness=c03_total_6 name=c03_total_7
 //@ functions=Packet::from_bytes, HeaderRaw::try_from, Header::from_raw, MessageClass::from
 //@ bounds=every byte string of length 0..7 (length and all bytes symbolic); unwind 6. The 8-byte form (c03_total_8, 20 minutes) is in the thorough tier: the quick tier has to finish within 15 minutes
 //@ what=never panics/overflows/reads out of bounds (Kani's implicit checks); must-reject => Err; must-accept => Ok
@@ -386,10 +386,10 @@ c03_total!(c03_total_7, 7, 6, false);
 //@ assumes=option map is the fixed-capacity array model
 c03_total!(c03_framing_6, 6, 6, true);
 
-//@ props=C03 tier=witness timeout=1200 mem=24 cap=2 ilist=1 name=c03_total_6
+//@ props=C03 tier=quick timeout=850 mem=14 cap=2 ilist=1 name=c03_total_6
 //@ functions=Packet::from_bytes
-//@ bounds=every byte string of length 0..6; only used to extract concrete counterexamples (trace generation on the 8-byte harness does not fit in memory)
-//@ what=as c03_total_8
+//@ bounds=every byte string of length 0..6 (length and all bytes symbolic). Also the witness harness from which concrete counterexamples of the larger harnesses are extracted (trace generation on 8 bytes does not fit in memory)
+//@ what=never panics/overflows/reads out of bounds (Kani's implicit checks); must-reject => Err; must-accept => Ok. 7 and 8 bytes (11 and 20 minutes) are in the thorough tier: a quick check has to finish within 15 minutes
 c03_total!(c03_total_6, 6, 6, false);
 
 //@ props=C03,C02 tier=thorough timeout=2400 mem=24 cap=3 ilist=1 witness=c03_total_6 name=c03_framing_7
@@ -458,7 +458,7 @@ c03_content!(c03_content_b, 21, |b: &mut [u8; 21]| {
     b[7] = 0;
 });
 
-//@ props=C03,C02 tier=quick timeout=1800 mem=19 cap=3 ilist=1 name=c03_content_c
+//@ props=C03,C02 tier=thorough timeout=1800 mem=19 cap=3 ilist=1 name=c03_content_c
 //@ functions=Packet::from_bytes
 //@ bounds=layout: first byte 0x61 (version 1, ACK, TKL 1), TWO options: (delta 13 + extended byte symbolic, length 1) and (delta 13 + extended byte symbolic, length 2), 0xFF, 1 payload byte = 14 bytes; all other bits symbolic
 //@ what=as c03_content_a with two options whose numbers are symbolic through their extended delta bytes
